@@ -32,7 +32,7 @@ ASSUMPTIONS = [
 
 def strategy(tier):
     return sched.sched_specs(quiet=True, adaptive=False, force_last=False,
-                             precisions=(None, None, None, 1))
+                             precisions=(None, None, None, 1), state_cond=True)
 
 
 def close(a, b, exact):
